@@ -14,7 +14,7 @@ MonInit == Init /\ l = 1
 MonNext ==
     /\ l <= Len(TraceLog) /\ l' = l + 1
     /\ input' = Ev.input /\ opt' = Ev.opt /\ phase' = "done"
-    /\ lay' = [order |-> Ev.order, members |-> Ev.members, toc |-> Ev.toc, expected |-> Expected(Ev.opt.mode, Ev.input),
+    /\ lay' = [refused |-> Ev.err = "refused", order |-> Ev.order, members |-> Ev.members, toc |-> Ev.toc, expected |-> Expected(Ev.opt.mode, Ev.input),
                diffid |-> Ev.diffid, shaAll |-> Ev.shaAll, tocdigest |-> Ev.tocdigest, shaToc |-> Ev.shaToc,
                shaPayload |-> Ev.shaPayload, shaInput |-> Ev.shaInput]
 MonSpec == MonInit /\ [][MonNext]_mvars
